@@ -961,4 +961,647 @@ example : WFFin ⟨⟨⟨0, 0, 2, ⟨⟨1, 0⟩, ⟨1, 0⟩, ⟨1, 0⟩, 0, 0, 0
 -- a fault location with "no error" is outside the exact-layout domain
 example : ¬ WFFin ⟨⟨⟨0, 0, 2, ⟨⟨1, 0⟩, ⟨1, 0⟩, ⟨1, 0⟩, 0, 0, 0, 1, 0⟩⟩, 5⟩, 0, 0, 2, [], some ⟨⟨6, [1]⟩⟩⟩ := by decide
 
+/-! ## Metadata (`C06_metadata_*`) -/
+
+/-- an `EntityIdTlv` *object* (not an option of the standard; its `__eq__` is `False` against the
+    generic TLV the decoder yields) -/
+def isEntityObj : AnyTlv → Bool
+  | .entityId _ => true
+  | _ => false
+
+/-- the value octets of a TLV object (`[]` if `.value` raises) -/
+def optValue (a : AnyTlv) : Bytes :=
+  match a.value with
+  | .ok v => v
+  | .error _ => []
+
+/-- a valid option: a TLV object of the library (generic, flow label, message to user,
+    fault-handler override, filestore request / response) with a type of the standard whose value
+    can be built, has 0..255 octets and which packs to type, length, value (C08) -/
+def WFOpt (a : AnyTlv) : Prop :=
+  isEntityObj a = false ∧ a.tlvType ∈ tlvTypes ∧ (optValue a).length ≤ 255 ∧
+  a.value = .ok (optValue a) ∧ a.pack = .ok (C08.Spec.tlv a.tlvType (optValue a))
+
+instance (a : AnyTlv) : Decidable (WFOpt a) := by unfold WFOpt; infer_instance
+
+def WFOptions (l : List AnyTlv) : Prop := ∀ a ∈ l, WFOpt a
+
+instance (l : List AnyTlv) : Decidable (WFOptions l) := by unfold WFOptions; infer_instance
+
+/-- the options as the standard lays them out: type, length, value, in list order -/
+def Spec.options : List AnyTlv → Bytes
+  | [] => []
+  | a :: l => C08.Spec.tlv a.tlvType (optValue a) ++ Spec.options l
+
+/-- valid Metadata PDUs: closure requested or not, every `ChecksumType` member, a file size over
+    the full range of the selected FSS width, names of 0..255 octets (any octets; the library
+    produces UTF-8), no options / an empty list / any number of valid options that fits the 16-bit
+    data-field length, towards the receiver, any header configuration -/
+def WFMd (k : Metadata) : Prop :=
+  k.checksumType ∈ checksumTypes ∧ fits (fssWidth k.fd.header.conf.fileFlag) k.fileSize ∧
+  k.srcLv.value.length ≤ 255 ∧ k.dstLv.value.length ≤ 255 ∧ WFOptions (optList k.options) ∧
+  WFBase k.fd 7 0 (1 + fssWidth k.fd.header.conf.fileFlag + (1 + k.srcLv.value.length)
+    + (1 + k.dstLv.value.length) + (Spec.options (optList k.options)).length)
+
+instance (k : Metadata) : Decidable (WFMd k) := by unfold WFMd; infer_instance
+
+/-- the parameters of 727.0-B-5 §5.2.5 -/
+def Spec.mdParams (k : Metadata) : Bytes :=
+  [u8 ((if k.closure then 64 else 0) + k.checksumType)]
+    ++ beBytes (fssWidth k.fd.header.conf.fileFlag) k.fileSize.toNat
+    ++ C08.Spec.lv k.srcLv.value ++ C08.Spec.lv k.dstLv.value ++ Spec.options (optList k.options)
+
+def Spec.metadata (k : Metadata) : Bytes := C06Fixed.Spec.pdu k.fd (Spec.mdParams k)
+
+private theorem mdParams_length (k : Metadata) :
+    (Spec.mdParams k).length = 1 + fssWidth k.fd.header.conf.fileFlag + (1 + k.srcLv.value.length)
+      + (1 + k.dstLv.value.length) + (Spec.options (optList k.options)).length := by
+  simp only [Spec.mdParams, C08.Spec.lv, List.length_append, List.length_cons, List.length_nil, beBytes_length]
+  omega
+
+private theorem ct_lt (c : Nat) (h : c ∈ checksumTypes) : c < 16 := by
+  simp only [checksumTypes, List.mem_cons, List.not_mem_nil, or_false] at h; omega
+
+private theorem md_octet (cl : Bool) (c : Nat) (h : c ∈ checksumTypes) :
+    ((if cl then 64 else 0) ||| c) = (if cl then 64 else 0) + c := by
+  simp only [checksumTypes, List.mem_cons, List.not_mem_nil, or_false] at h
+  rcases h with rfl | rfl | rfl | rfl | rfl <;> cases cl <;> rfl
+
+private theorem opt_len (a : AnyTlv) (wf : WFOpt a) : a.packetLen = (C08.Spec.tlv a.tlvType (optValue a)).length :=
+  (C08.C08_packet_len a _ wf.2.2.2.2).symm
+
+private theorem optionsLen_spec (l : List AnyTlv) (wf : WFOptions l) : optionsLen l = (Spec.options l).length := by
+  induction l with
+  | nil => rfl
+  | cons a l ih =>
+    have ha := opt_len a (wf a List.mem_cons_self)
+    have hl : WFOptions l := fun q hq => wf q (List.mem_cons_of_mem _ hq)
+    simp only [optionsLen, Spec.options, List.length_append, ih hl, ha]
+
+private theorem packOptions_spec (l : List AnyTlv) (wf : WFOptions l) : packOptions l = .ok (Spec.options l) := by
+  induction l with
+  | nil => rfl
+  | cons a l ih =>
+    have ha := (wf a List.mem_cons_self).2.2.2.2
+    have hl : WFOptions l := fun q hq => wf q (List.mem_cons_of_mem _ hq)
+    simp only [packOptions, ha, ih hl, bind, Except.bind, pure, Except.pure, Spec.options]
+
+private theorem md_plen (f c : Nat) (s d : CfdpLv) (o : Option (List AnyTlv)) (wf : WFOptions (optList o)) :
+    mdParamLen f c s d o + 1 = 1 + (1 + fssWidth f + (1 + s.value.length) + (1 + d.value.length)
+      + (Spec.options (optList o)).length) + (if c = 1 then 2 else 0) := by
+  unfold mdParamLen CfdpLv.packetLen
+  rw [optionsLen_spec _ wf]
+  omega
+
+/-- the constructor accepts every configuration and every parameter set whose encoding fits the
+    16-bit data-field length (names of at most 255 octets; `None` is the empty name), forces the
+    direction "towards receiver" and yields a valid PDU -/
+theorem C06_metadata_new (c : PduConfig) (wf : WFConf c) (cl : Bool) (ct : Nat) (size : Int)
+    (src dst : Option Bytes) (opts : Option (List AnyTlv))
+    (hs : (nameOctets src).length ≤ 255) (hd : (nameOctets dst).length ≤ 255)
+    (hn : mdParamLen c.fileFlag c.crcFlag ⟨nameOctets src⟩ ⟨nameOctets dst⟩ opts + 1 ≤ 65535) :
+    ∃ k, Metadata.new c cl ct size src dst opts = .ok k ∧ k.closure = cl ∧ k.checksumType = ct ∧
+      k.fileSize = size ∧ k.srcLv = ⟨nameOctets src⟩ ∧ k.dstLv = ⟨nameOctets dst⟩ ∧ k.options = opts ∧
+      k.fd.header.conf = { c with direction := 0 } ∧
+      (ct ∈ checksumTypes → fits (fssWidth c.fileFlag) size → WFOptions (optList opts) → WFMd k) := by
+  rw [Metadata.new_eq]
+  have g0 : ¬ (255 < (nameOctets src).length ∨ 255 < (nameOctets dst).length) := by omega
+  have g : ¬ (c.source.width ≠ c.dest.width ∨
+      65535 < mdParamLen c.fileFlag c.crcFlag ⟨nameOctets src⟩ ⟨nameOctets dst⟩ opts + 1) := by
+    have := wf.2.2.2.2.2.2.2.2; omega
+  rw [if_neg g0, if_neg g]
+  refine ⟨_, rfl, rfl, rfl, rfl, rfl, rfl, rfl, rfl, ?_⟩
+  intro h1 h2 h3
+  refine ⟨h1, h2, hs, hd, h3, ?_, rfl, rfl, rfl, rfl, ?_⟩
+  · exact wf_dirHeader c wf _ _ (by omega) (by omega)
+  · simp only [crcLen]
+    exact md_plen _ _ _ _ _ h3
+
+/-- a name of more than 255 octets, or more options than the 16-bit data-field length can
+    describe, are refused (`ValueError`) by the constructor -/
+theorem C06_metadata_too_long (c : PduConfig) (cl : Bool) (ct : Nat) (size : Int) (src dst : Option Bytes)
+    (opts : Option (List AnyTlv))
+    (h : 255 < (nameOctets src).length ∨ 255 < (nameOctets dst).length ∨
+      65535 < mdParamLen c.fileFlag c.crcFlag ⟨nameOctets src⟩ ⟨nameOctets dst⟩ opts + 1) :
+    Metadata.new c cl ct size src dst opts = .error .value := by
+  rw [Metadata.new_eq]
+  by_cases g0 : 255 < (nameOctets src).length ∨ 255 < (nameOctets dst).length
+  · rw [if_pos g0]
+  · rw [if_neg g0, if_pos (Or.inr (by omega))]
+
+private theorem pow8 : (256 : Nat) ^ 8 = 18446744073709551616 := by decide
+private theorem pow4 : (256 : Nat) ^ 4 = 4294967296 := by decide
+
+private theorem verify_fits (fd : FileDirective) (size : Int) (hf : fd.header.conf.fileFlag < 2)
+    (h : fits (fssWidth fd.header.conf.fileFlag) size) : fd.verifyFileLen size = .ok () := by
+  rw [verifyFileLen_eq]
+  obtain ⟨h0, h1⟩ := h
+  unfold fssWidth at h1
+  have p8 := pow8
+  have p4 := pow4
+  by_cases hl : fd.header.conf.fileFlag = 1
+  · simp only [hl, ↓reduceIte] at h1
+    have g : ¬ ((fd.header.conf.fileFlag = 1 ∧ size > 18446744073709551616) ∨
+        (fd.header.conf.fileFlag = 0 ∧ size > 4294967296)) := by omega
+    rw [if_neg g]
+  · simp only [hl, ↓reduceIte] at h1
+    have g : ¬ ((fd.header.conf.fileFlag = 1 ∧ size > 18446744073709551616) ∨
+        (fd.header.conf.fileFlag = 0 ∧ size > 4294967296)) := by omega
+    rw [if_neg g]
+
+/-- **pack = standard layout**, for every valid Metadata PDU (names as LVs, options in list order)
+    in every header configuration -/
+theorem C06_metadata_pack_exact (k : Metadata) (wf : WFMd k) : k.pack = .ok (Spec.metadata k) := by
+  obtain ⟨h1, h2, h3, h4, h5, w1, _, _, w4, _, _⟩ := wf
+  unfold Metadata.pack
+  have hlt : (if k.closure then 64 else 0) + k.checksumType < 256 := by
+    have := ct_lt _ h1; split <;> omega
+  rw [verify_fits k.fd _ w1.2.2.2.2.1 h2, pack_spec k.fd w1 (by omega), md_octet _ _ h1, byteOfN_ok hlt, wsel,
+    Nak.packInt_fits _ _ h2, CfdpLv.pack_eq _ h3, CfdpLv.pack_eq _ h4, packOptions_spec _ h5]
+  simp only [bind, Except.bind, pure, Except.pure, Spec.metadata, C06Fixed.Spec.pdu, Spec.mdParams, specOctets,
+    C08.Spec.lv, List.append_assoc]
+
+/-- **a file size that does not fit the selected width makes `pack` fail, never truncate**:
+    `ValueError` from `_verify_file_len` above 2^32 / 2^64, `struct.error` from `struct.pack` for
+    exactly 2^32 / 2^64 and for negative sizes -/
+theorem C06_metadata_fss_overflow (k : Metadata) (wf : C05.WF k.fd.header) (hc : k.fd.code < 256)
+    (hct : k.checksumType ∈ checksumTypes)
+    (h : ¬ fits (fssWidth k.fd.header.conf.fileFlag) k.fileSize) :
+    k.pack = .error .value ∨ k.pack = .error .struct := by
+  unfold Metadata.pack
+  rw [verifyFileLen_eq]
+  split
+  · left; rfl
+  · right
+    have hlt : (if k.closure then 64 else 0) + k.checksumType < 256 := by
+      have := ct_lt _ hct; split <;> omega
+    rw [bind_ok, pack_spec k.fd wf hc, md_octet _ _ hct, byteOfN_ok hlt, wsel]
+    have hs : packInt (fssWidth k.fd.header.conf.fileFlag) k.fileSize = .error .struct := by
+      unfold fits at h
+      by_cases h0 : k.fileSize < 0
+      · exact packInt_neg _ _ h0
+      · exact packInt_big _ _ (by omega) (by omega)
+    rw [hs]
+    rfl
+
+/-- **length clauses**: 1 + FSS octets + the two LVs + the options, plus 2 with CRC -/
+theorem C06_metadata_len (k : Metadata) (wf : WFMd k) :
+    (Spec.metadata k).length = k.packetLen ∧
+    k.fd.header.dataFieldLen = (Spec.metadata k).length - k.fd.header.headerLen ∧
+    k.fd.header.dataFieldLen = k.packetLen - k.fd.header.headerLen ∧
+    (Spec.metadata k).length = k.fd.header.headerLen + 1
+      + (1 + fssWidth k.fd.header.conf.fileFlag + (1 + k.srcLv.value.length) + (1 + k.dstLv.value.length)
+          + (Spec.options (optList k.options)).length) + crcLen k.fd.header.conf := by
+  have hl := mdParams_length k
+  have := pdu_len k.fd 7 0 (Spec.mdParams k) (by rw [hl]; exact wf.2.2.2.2.2)
+  rw [hl] at this
+  exact this
+
+theorem C06_metadata_crc (k : Metadata) :
+    (k.fd.header.conf.crcFlag = 1 →
+      Spec.metadata k = (C05.Spec.octets k.fd.header ++ [u8 k.fd.code] ++ Spec.mdParams k)
+        ++ Crc.crcTrailer (C05.Spec.octets k.fd.header ++ [u8 k.fd.code] ++ Spec.mdParams k) ∧
+      Crc.crc16 (Spec.metadata k) = 0) ∧
+    (k.fd.header.conf.crcFlag ≠ 1 →
+      Spec.metadata k = C05.Spec.octets k.fd.header ++ [u8 k.fd.code] ++ Spec.mdParams k) :=
+  pdu_crc k.fd (Spec.mdParams k)
+
+/-! ### the option loop on laid-out options; what the decoder returns -/
+
+/-- the generic TLV the decoder yields for an option -/
+def toGeneric (a : AnyTlv) : AnyTlv := .generic ⟨a.tlvType, optValue a⟩
+
+/-- the decoder's view of the option list: no options and an empty list are the same PDU, every
+    option comes back as a generic TLV of the same type and value -/
+def normOptions : Option (List AnyTlv) → Option (List AnyTlv)
+  | none => none
+  | some [] => none
+  | some (a :: l) => some ((a :: l).map toGeneric)
+
+/-- the PDU as the decoder returns it -/
+def normMd (k : Metadata) : Metadata := { k with options := normOptions k.options }
+
+private theorem tlv_spec_len (t : Nat) (v : Bytes) : (C08.Spec.tlv t v).length = 2 + v.length := by
+  simp [C08.Spec.tlv]; omega
+
+/-- **the loop reads laid-out options back**, in order, and stops exactly at the end of its input -/
+private theorem parseOptions_spec (l : List AnyTlv) (wf : WFOptions l) (hne : l ≠ []) :
+    parseOptions (Spec.options l) = .ok (l.map fun a => ⟨a.tlvType, optValue a⟩) := by
+  induction l with
+  | nil => exact absurd rfl hne
+  | cons a l ih =>
+    obtain ⟨_, ht, hv, _, _⟩ := wf a List.mem_cons_self
+    have hl : WFOptions l := fun q hq => wf q (List.mem_cons_of_mem _ hq)
+    have hu := CfdpTlv.unpack_pack_append a.tlvType (optValue a) (Spec.options l) ht hv
+    rw [parseOptions]
+    have hd : Spec.options (a :: l) = u8 a.tlvType :: u8 (optValue a).length :: (optValue a ++ Spec.options l) := by
+      simp [Spec.options, C08.Spec.tlv]
+    rw [hd, hu, bind_ok]
+    have hlen : (u8 a.tlvType :: u8 (optValue a).length :: (optValue a ++ Spec.options l)).length
+        = 2 + (optValue a).length + (Spec.options l).length := by
+      simp only [List.length_cons, List.length_append]; omega
+    have hpl : (CfdpTlv.mk a.tlvType (optValue a)).packetLen = 2 + (optValue a).length := rfl
+    rw [hpl, hlen]
+    have c1 : ¬ 2 + (optValue a).length > 2 + (optValue a).length + (Spec.options l).length := by omega
+    rw [if_neg c1]
+    cases l with
+    | nil =>
+      have c2 : 2 + (optValue a).length = 2 + (optValue a).length + (Spec.options []).length := by
+        simp [Spec.options]
+      rw [dif_pos c2]
+      rfl
+    | cons b l' =>
+      have hb := tlv_spec_len b.tlvType (optValue b)
+      have c2 : ¬ 2 + (optValue a).length = 2 + (optValue a).length + (Spec.options (b :: l')).length := by
+        simp only [Spec.options, List.length_append]; omega
+      rw [dif_neg c2]
+      have hdrop : (u8 a.tlvType :: u8 (optValue a).length :: (optValue a ++ Spec.options (b :: l'))).drop
+          (2 + (optValue a).length) = Spec.options (b :: l') := by
+        have : u8 a.tlvType :: u8 (optValue a).length :: (optValue a ++ Spec.options (b :: l'))
+            = (u8 a.tlvType :: u8 (optValue a).length :: optValue a) ++ Spec.options (b :: l') := by simp
+        rw [this]
+        apply List.drop_left'
+        simp only [List.length_cons]; omega
+      rw [hdrop, ih hl (by simp), bind_ok]
+      rfl
+
+private theorem md_first (cl : Bool) (c : Nat) (h : c < 16) :
+    ((if cl then 64 else 0) + c) % 256 % 16 = c ∧
+    (decide (((if cl then 64 else 0) + c) % 256 / 64 % 2 = 1)) = cl := by
+  cases cl
+  · simp only [Bool.false_eq_true, ↓reduceIte, Nat.zero_add]
+    refine ⟨by omega, ?_⟩
+    have : ¬ (c % 256 / 64 % 2 = 1) := by omega
+    simp [this]
+  · simp only [↓reduceIte]
+    refine ⟨by omega, ?_⟩
+    have : (64 + c) % 256 / 64 % 2 = 1 := by omega
+    simp [this]
+
+/-- **round trip, whatever follows the PDU**: decoding the packed PDU followed by arbitrary octets
+    returns the PDU with identical header, closure flag, checksum type, file size and names, and the
+    options as generic TLVs of the same types and values in the same order (`None` for no / an empty
+    list) — neither the CRC trailer nor trailing octets are read as options -/
+theorem C06_metadata_roundtrip (k : Metadata) (wf : WFMd k) (rest : Bytes) :
+    Metadata.unpack (Spec.metadata k ++ rest) = .ok (normMd k) := by
+  obtain ⟨h1, h2, h3, h4, h5, wb⟩ := wf
+  have hpl := mdParams_length k
+  have wb' : WFBase k.fd 7 0 (Spec.mdParams k).length := by rw [hpl]; exact wb
+  obtain ⟨hp, _⟩ := prelude_pdu k.fd 7 0 (Spec.mdParams k) rest wb' (by omega)
+  have w1 := wb.1
+  have hw := Nak.fssWidth_pos k.fd.header.conf.fileFlag
+  have hct := ct_lt _ h1
+  rw [Metadata.unpack_eq, Spec.metadata, hp]
+  show Metadata.parse (k.fd, specOctets k.fd ++ Spec.mdParams k) = _
+  have hsl := specOctets_length k.fd w1
+  generalize hwd : fssWidth k.fd.header.conf.fileFlag = w at *
+  generalize hO : Spec.options (optList k.options) = O at *
+  have hlen : (specOctets k.fd ++ Spec.mdParams k).length
+      = k.fd.headerLen + (1 + w + (1 + k.srcLv.value.length) + (1 + k.dstLv.value.length) + O.length) := by
+    simp only [List.length_append, hsl, hpl]
+  unfold Metadata.parse
+  simp only []
+  have hmin : (if k.fd.header.conf.fileFlag = 1 then k.fd.headerLen + 7 + 4 else k.fd.headerLen + 7)
+      = k.fd.headerLen + 3 + w := by
+    rw [← hwd]; unfold fssWidth; split <;> omega
+  have c1 : ¬ (specOctets k.fd ++ Spec.mdParams k).length < k.fd.headerLen + 3 + w := by omega
+  rw [hmin, if_neg c1]
+  -- first parameter octet
+  have hi : idx (specOctets k.fd ++ Spec.mdParams k) k.fd.headerLen
+      = .ok (((if k.closure then 64 else 0) + k.checksumType) % 256) := by
+    have := idx_params k.fd w1 (Spec.mdParams k) 0
+    rw [Nat.add_zero] at this
+    rw [this]
+    simp [Spec.mdParams, idx]
+  obtain ⟨o1, o2⟩ := md_first k.closure k.checksumType hct
+  rw [hi]
+  simp only [bind_ok, o1, o2, enumOf, h1, ↓reduceIte]
+  -- file size
+  have hP : specOctets k.fd ++ Spec.mdParams k
+      = (specOctets k.fd ++ [u8 ((if k.closure then 64 else 0) + k.checksumType)])
+        ++ beBytes w k.fileSize.toNat
+        ++ (C08.Spec.lv k.srcLv.value ++ (C08.Spec.lv k.dstLv.value ++ O)) := by
+    simp only [Spec.mdParams, hwd, hO, List.append_assoc]
+  have hpre : (specOctets k.fd ++ [u8 ((if k.closure then 64 else 0) + k.checksumType)]).length
+      = k.fd.headerLen + 1 := by simp [hsl]
+  have hfss := parseFss_spec k.fd (specOctets k.fd ++ [u8 ((if k.closure then 64 else 0) + k.checksumType)])
+    (C08.Spec.lv k.srcLv.value ++ (C08.Spec.lv k.dstLv.value ++ O)) k.fileSize.toNat (by rw [hwd]; exact h2.2)
+  rw [hwd, hpre, ← hP] at hfss
+  rw [hfss, bind_ok]
+  simp only []
+  -- source name
+  have hd1 : (specOctets k.fd ++ Spec.mdParams k).drop (k.fd.headerLen + 1 + w)
+      = C08.Spec.lv k.srcLv.value ++ (C08.Spec.lv k.dstLv.value ++ O) := by
+    rw [hP]
+    apply List.drop_left'
+    simp only [List.length_append, hpre, beBytes_length]
+  have hu1 := CfdpLv.unpack_pack_append k.srcLv.value (C08.Spec.lv k.dstLv.value ++ O) h3
+  rw [hd1]
+  simp only [C08.Spec.lv, List.cons_append] at hu1 ⊢
+  rw [hu1, bind_ok]
+  -- destination name
+  have hd2 : (specOctets k.fd ++ Spec.mdParams k).drop (k.fd.headerLen + 1 + w + (CfdpLv.mk k.srcLv.value).packetLen)
+      = C08.Spec.lv k.dstLv.value ++ O := by
+    rw [hP]
+    have : (specOctets k.fd ++ [u8 ((if k.closure then 64 else 0) + k.checksumType)]) ++ beBytes w k.fileSize.toNat
+        ++ (C08.Spec.lv k.srcLv.value ++ (C08.Spec.lv k.dstLv.value ++ O))
+        = ((specOctets k.fd ++ [u8 ((if k.closure then 64 else 0) + k.checksumType)]) ++ beBytes w k.fileSize.toNat
+            ++ C08.Spec.lv k.srcLv.value) ++ (C08.Spec.lv k.dstLv.value ++ O) := by
+      simp only [List.append_assoc]
+    rw [this]
+    apply List.drop_left'
+    simp only [List.length_append, hpre, beBytes_length, C08.Spec.lv, List.length_cons, CfdpLv.packetLen]
+  have hu2 := CfdpLv.unpack_pack_append k.dstLv.value O h4
+  rw [hd2]
+  simp only [C08.Spec.lv, List.cons_append] at hu2 ⊢
+  rw [hu2, bind_ok]
+  have hcast : ((k.fileSize.toNat : Nat) : Int) = k.fileSize := Nak.toNat_cast_fits _ _ h2
+  have hj : k.fd.headerLen + 1 + w + (CfdpLv.mk k.srcLv.value).packetLen + (CfdpLv.mk k.dstLv.value).packetLen
+      = k.fd.headerLen + (1 + w + (1 + k.srcLv.value.length) + (1 + k.dstLv.value.length)) := by
+    simp only [CfdpLv.packetLen]; omega
+  rw [hj, hcast]
+  have hsrc : (CfdpLv.mk k.srcLv.value) = k.srcLv := rfl
+  have hdst : (CfdpLv.mk k.dstLv.value) = k.dstLv := rfl
+  rw [hsrc, hdst]
+  cases hopt : optList k.options with
+  | nil =>
+    have hO0 : O = [] := by rw [← hO, hopt]; rfl
+    have c2 : ¬ k.fd.headerLen + (1 + w + (1 + k.srcLv.value.length) + (1 + k.dstLv.value.length))
+        < (specOctets k.fd ++ Spec.mdParams k).length := by rw [hlen, hO0]; simp
+    rw [if_neg c2]
+    have hn : normOptions k.options = none := by
+      cases ho : k.options with
+      | none => rfl
+      | some l => rw [ho] at hopt; simp only [optList] at hopt; rw [hopt]; rfl
+    simp only [normMd, hn, pure, Except.pure]
+  | cons a l =>
+    have hOl : 2 ≤ O.length := by
+      rw [← hO, hopt]
+      have := tlv_spec_len a.tlvType (optValue a)
+      simp only [Spec.options, List.length_append]; omega
+    have c2 : k.fd.headerLen + (1 + w + (1 + k.srcLv.value.length) + (1 + k.dstLv.value.length))
+        < (specOctets k.fd ++ Spec.mdParams k).length := by rw [hlen]; omega
+    rw [if_pos c2, drop_params k.fd w1]
+    have hd3 : (Spec.mdParams k).drop (1 + w + (1 + k.srcLv.value.length) + (1 + k.dstLv.value.length)) = O := by
+      have : Spec.mdParams k = ([u8 ((if k.closure then 64 else 0) + k.checksumType)]
+          ++ beBytes w k.fileSize.toNat ++ C08.Spec.lv k.srcLv.value ++ C08.Spec.lv k.dstLv.value) ++ O := by
+        simp only [Spec.mdParams, hwd, hO]
+      rw [this]
+      apply List.drop_left'
+      simp only [List.length_append, List.length_cons, List.length_nil, beBytes_length, C08.Spec.lv]
+      omega
+    rw [hd3, ← hO, hopt, parseOptions_spec (a :: l) (by rw [← hopt]; exact h5) (by simp), bind_ok]
+    have hn : normOptions k.options = some ((a :: l).map toGeneric) := by
+      cases ho : k.options with
+      | none => rw [ho] at hopt; cases hopt
+      | some l' => rw [ho] at hopt; simp only [optList] at hopt; rw [hopt]; rfl
+    simp only [normMd, hn, pure, Except.pure, List.map_map]
+    rfl
+
+private theorem wfOpt_toGeneric (a : AnyTlv) (wf : WFOpt a) :
+    WFOpt (toGeneric a) ∧ (toGeneric a).tlvType = a.tlvType ∧ optValue (toGeneric a) = optValue a := by
+  obtain ⟨_, ht, hv, _, _⟩ := wf
+  have ht' : a.tlvType < 256 := by
+    simp only [tlvTypes, List.mem_cons, List.not_mem_nil, or_false] at ht; omega
+  refine ⟨⟨rfl, ht, hv, rfl, ?_⟩, rfl, rfl⟩
+  show CfdpTlv.pack ⟨a.tlvType, optValue a⟩ = _
+  rw [CfdpTlv.pack_eq _ ht' hv]
+  rfl
+
+private theorem norm_spec (o : Option (List AnyTlv)) (wf : WFOptions (optList o)) :
+    WFOptions (optList (normOptions o)) ∧ Spec.options (optList (normOptions o)) = Spec.options (optList o) := by
+  have key : ∀ l : List AnyTlv, WFOptions l →
+      WFOptions (l.map toGeneric) ∧ Spec.options (l.map toGeneric) = Spec.options l := by
+    intro l
+    induction l with
+    | nil => intro _; exact ⟨fun a ha => (by cases ha), rfl⟩
+    | cons a l ih =>
+      intro hl
+      obtain ⟨g1, g2, g3⟩ := wfOpt_toGeneric a (hl a List.mem_cons_self)
+      obtain ⟨i1, i2⟩ := ih (fun q hq => hl q (List.mem_cons_of_mem _ hq))
+      constructor
+      · intro q hq
+        rcases List.mem_cons.mp hq with rfl | hq
+        · exact g1
+        · exact i1 q hq
+      · simp only [List.map_cons, Spec.options, g2, g3, i2]
+  cases o with
+  | none => exact ⟨wf, rfl⟩
+  | some l =>
+    cases l with
+    | nil => exact ⟨fun a ha => (by cases ha), rfl⟩
+    | cons a l => exact key (a :: l) wf
+
+/-- the decoded PDU is again a valid PDU with **the same octets**: `pack` of the decoded PDU is
+    `pack` of the original, and decoding it once more changes nothing -/
+theorem C06_metadata_repack (k : Metadata) (wf : WFMd k) (rest : Bytes) :
+    WFMd (normMd k) ∧ Spec.metadata (normMd k) = Spec.metadata k ∧ (normMd k).pack = k.pack ∧
+    Metadata.unpack (Spec.metadata (normMd k) ++ rest) = .ok (normMd k) := by
+  obtain ⟨n1, n2⟩ := norm_spec k.options wf.2.2.2.2.1
+  have hwf : WFMd (normMd k) := by
+    obtain ⟨h1, h2, h3, h4, _, wb⟩ := wf
+    refine ⟨h1, h2, h3, h4, n1, ?_⟩
+    show WFBase k.fd 7 0 _
+    simp only [normMd, n2]
+    exact wb
+  have hs : Spec.metadata (normMd k) = Spec.metadata k := by
+    show C06Fixed.Spec.pdu k.fd (Spec.mdParams (normMd k)) = C06Fixed.Spec.pdu k.fd (Spec.mdParams k)
+    congr 1
+    show _ ++ Spec.options (optList (normOptions k.options)) = _ ++ Spec.options (optList k.options)
+    rw [n2]
+    rfl
+  have hnn : normMd (normMd k) = normMd k := by
+    unfold normMd
+    cases ho : k.options with
+    | none => rfl
+    | some l =>
+      cases l with
+      | nil => rfl
+      | cons a l =>
+        simp only [normOptions, List.map_cons, List.map_map]
+        congr 2
+  refine ⟨hwf, hs, ?_, ?_⟩
+  · rw [C06_metadata_pack_exact _ hwf, C06_metadata_pack_exact _ wf, hs]
+  · have := C06_metadata_roundtrip (normMd k) hwf rest
+    rw [hnn] at this
+    exact this
+
+private theorem beq_toGeneric (a : AnyTlv) (wf : WFOpt a) :
+    a.beq (toGeneric a) = .ok true ∧ (toGeneric a).beq a = .ok true := by
+  obtain ⟨he, _, _, hv, _⟩ := wf
+  cases a with
+  | entityId t => cases he
+  | generic t => simp_all [AnyTlv.beq, toGeneric, AnyTlv.tlvType, AnyTlv.value, bind, Except.bind, pure, Except.pure]
+  | flowLabel t => simp_all [AnyTlv.beq, toGeneric, AnyTlv.tlvType, AnyTlv.value, bind, Except.bind, pure, Except.pure]
+  | msgToUser t => simp_all [AnyTlv.beq, toGeneric, AnyTlv.tlvType, AnyTlv.value, bind, Except.bind, pure, Except.pure]
+  | faultHandler t =>
+    simp_all [AnyTlv.beq, toGeneric, AnyTlv.tlvType, AnyTlv.value, bind, Except.bind, pure, Except.pure]
+  | fsRequest t => simp_all [AnyTlv.beq, toGeneric, AnyTlv.tlvType, AnyTlv.value, bind, Except.bind, pure, Except.pure]
+  | fsResponse t => simp_all [AnyTlv.beq, toGeneric, AnyTlv.tlvType, AnyTlv.value, bind, Except.bind, pure, Except.pure]
+
+/-- the decoded PDU **compares equal** to the original, both ways (an empty option list equals no
+    options; options compare by type and value) -/
+theorem C06_metadata_eq (k : Metadata) (wf : WFMd k) :
+    k.beq (normMd k) = .ok true ∧ (normMd k).beq k = .ok true := by
+  have key : ∀ l : List AnyTlv, WFOptions l →
+      optionsBeqAux l (l.map toGeneric) = .ok true ∧ optionsBeqAux (l.map toGeneric) l = .ok true := by
+    intro l
+    induction l with
+    | nil => intro _; exact ⟨rfl, rfl⟩
+    | cons a l ih =>
+      intro hl
+      obtain ⟨b1, b2⟩ := beq_toGeneric a (hl a List.mem_cons_self)
+      obtain ⟨i1, i2⟩ := ih (fun q hq => hl q (List.mem_cons_of_mem _ hq))
+      simp only [List.map_cons, optionsBeqAux, b1, b2, i1, i2, bind, Except.bind, ↓reduceIte, and_self]
+  have hopt : optionsBeq (optList k.options) (optList (normOptions k.options)) = .ok true ∧
+      optionsBeq (optList (normOptions k.options)) (optList k.options) = .ok true := by
+    cases ho : k.options with
+    | none => exact ⟨rfl, rfl⟩
+    | some l =>
+      cases l with
+      | nil => exact ⟨rfl, rfl⟩
+      | cons a l =>
+        have hl : WFOptions (a :: l) := by have := wf.2.2.2.2.1; rw [ho] at this; exact this
+        obtain ⟨k1, k2⟩ := key (a :: l) hl
+        simp only [normOptions, optList, optionsBeq, List.length_map, ne_eq, not_true_eq_false, ↓reduceIte]
+        exact ⟨k1, k2⟩
+  simp [Metadata.beq, normMd, beq_refl, hopt.1, hopt.2]
+
+/-- **the three documented setters keep the length consistent**: afterwards the PDU is the one a
+    fresh constructor call with the new value gives (or both are refused as too long) -/
+theorem C06_metadata_setters (c : PduConfig) (cl : Bool) (ct : Nat) (size : Int) (src dst : Option Bytes)
+    (opts : Option (List AnyTlv))
+    (hs : (nameOctets src).length ≤ 255) (hd : (nameOctets dst).length ≤ 255)
+    (hn : mdParamLen c.fileFlag c.crcFlag ⟨nameOctets src⟩ ⟨nameOctets dst⟩ opts + 1 ≤ 65535) :
+    (∀ o', (Metadata.new c cl ct size src dst opts >>= fun k => k.setOptions o')
+      = Metadata.new c cl ct size src dst o') ∧
+    (∀ n, (Metadata.new c cl ct size src dst opts >>= fun k => k.setSrcName n)
+      = Metadata.new c cl ct size n dst opts) ∧
+    (∀ n, (Metadata.new c cl ct size src dst opts >>= fun k => k.setDstName n)
+      = Metadata.new c cl ct size src n opts) := by
+  have hs' : ¬ 255 < (nameOctets src).length := by omega
+  have hd' : ¬ 255 < (nameOctets dst).length := by omega
+  by_cases g : c.source.width ≠ c.dest.width
+  · refine ⟨fun o' => ?_, fun n => ?_, fun n => ?_⟩
+    · simp [Metadata.new_eq, hs', hd', g, bind, Except.bind]
+    · by_cases g1 : 255 < (nameOctets n).length <;> simp [Metadata.new_eq, hs', hd', g, g1, bind, Except.bind]
+    · by_cases g1 : 255 < (nameOctets n).length <;> simp [Metadata.new_eq, hs', hd', g, g1, bind, Except.bind]
+  · have g0 : ¬ (255 < (nameOctets src).length ∨ 255 < (nameOctets dst).length) := by omega
+    have g1 : ¬ (c.source.width ≠ c.dest.width ∨
+        65535 < mdParamLen c.fileFlag c.crcFlag ⟨nameOctets src⟩ ⟨nameOctets dst⟩ opts + 1) := by omega
+    refine ⟨fun o' => ?_, fun n => ?_, fun n => ?_⟩
+    · rw [Metadata.new_eq, Metadata.new_eq, if_neg g0, if_neg g1, bind_ok, Metadata.setOptions_eq, if_neg g0]
+      by_cases g2 : 65535 < mdParamLen c.fileFlag c.crcFlag ⟨nameOctets src⟩ ⟨nameOctets dst⟩ o' + 1
+      · simp [g, g2]
+      · simp [g, g2]
+    · rw [Metadata.new_eq, Metadata.new_eq, if_neg g0, if_neg g1, bind_ok, Metadata.setSrcName_eq]
+      by_cases g2 : 255 < (nameOctets n).length
+      · simp [g2]
+      · by_cases g3 : 65535 < mdParamLen c.fileFlag c.crcFlag ⟨nameOctets n⟩ ⟨nameOctets dst⟩ opts + 1
+        · have : ¬ 255 < (nameOctets dst).length := by omega
+          simp [g, g2, g3, this]
+        · have : ¬ 255 < (nameOctets dst).length := by omega
+          simp [g, g2, g3, this]
+    · rw [Metadata.new_eq, Metadata.new_eq, if_neg g0, if_neg g1, bind_ok, Metadata.setDstName_eq]
+      by_cases g2 : 255 < (nameOctets n).length
+      · simp [g2]
+      · by_cases g3 : 65535 < mdParamLen c.fileFlag c.crcFlag ⟨nameOctets src⟩ ⟨nameOctets n⟩ opts + 1
+        · have : ¬ 255 < (nameOctets src).length := by omega
+          simp [g, g2, g3, this]
+        · have : ¬ 255 < (nameOctets src).length := by omega
+          simp [g, g2, g3, this]
+
+/-- the option classes of the library are valid options: a generic TLV of a standard type, and
+    (through the C08 layout theorems) a valid filestore response / request -/
+theorem C06_metadata_option_kinds :
+    (∀ t : CfdpTlv, C08.WFType t.ttype → C08.WFValue t.value → WFOpt (.generic t)) ∧
+    (∀ v : Bytes, C08.WFValue v → WFOpt (.flowLabel ⟨⟨5, v⟩⟩) ∧ WFOpt (.msgToUser ⟨⟨2, v⟩⟩)) ∧
+    (∀ r : FileStoreResponseTlv, C08.WFResp r → WFOpt (.fsResponse r)) ∧
+    (∀ r : FileStoreRequestTlv, C08.WFReq r → WFOpt (.fsRequest r)) := by
+  refine ⟨?_, ?_, ?_, ?_⟩
+  · intro t ht hv
+    have ht' : t.ttype < 256 := by
+      simp only [C08.WFType, tlvTypes, List.mem_cons, List.not_mem_nil, or_false] at ht; omega
+    refine ⟨rfl, ht, hv, rfl, ?_⟩
+    show t.pack = _
+    rw [CfdpTlv.pack_eq _ ht' hv]; rfl
+  · intro v hv
+    have hv' : v.length ≤ 255 := hv
+    constructor
+    · refine ⟨rfl, (by show (5 : Nat) ∈ tlvTypes; decide), hv, rfl, ?_⟩
+      show CfdpTlv.pack ⟨5, v⟩ = _
+      rw [CfdpTlv.pack_eq _ (by simp) hv']; rfl
+    · refine ⟨rfl, (by show (2 : Nat) ∈ tlvTypes; decide), hv, rfl, ?_⟩
+      show CfdpTlv.pack ⟨2, v⟩ = _
+      rw [CfdpTlv.pack_eq _ (by simp) hv']; rfl
+  · intro r wf
+    have hp := C08.C08_fs_response_pack_exact r wf
+    have hv : r.value = .ok (C08.Spec.fsResponse r).tail.tail := by
+      unfold FileStoreResponseTlv.pack at hp
+      unfold FileStoreResponseTlv.value
+      cases hb : r.buildTlv with
+      | error e => rw [hb] at hp; cases hp
+      | ok t =>
+        rw [hb, bind_ok] at hp
+        obtain ⟨_, _, he⟩ := CfdpTlv.pack_ok t _ hp
+        rw [he]; rfl
+    have hov : optValue (.fsResponse r) = (C08.Spec.fsResponse r).tail.tail := by
+      simp [optValue, AnyTlv.value, hv]
+    refine ⟨rfl, (by show (1 : Nat) ∈ tlvTypes; decide), ?_, ?_, ?_⟩
+    · rw [hov]; have := wf.2.2.2.2.2.2.2; simpa [C08.Spec.fsResponse, C08.Spec.tlv] using this
+    · rw [hov]; exact hv
+    · rw [hov]; exact hp
+  · intro r wf
+    have hp := C08.C08_fs_request_pack_exact r wf
+    have hv : r.value = .ok (C08.Spec.fsRequest r).tail.tail := by
+      unfold FileStoreRequestTlv.pack at hp
+      unfold FileStoreRequestTlv.value
+      cases hb : r.buildTlv with
+      | error e => rw [hb] at hp; cases hp
+      | ok t =>
+        rw [hb, bind_ok] at hp
+        obtain ⟨_, _, he⟩ := CfdpTlv.pack_ok t _ hp
+        rw [he]; rfl
+    have hov : optValue (.fsRequest r) = (C08.Spec.fsRequest r).tail.tail := by
+      simp [optValue, AnyTlv.value, hv]
+    refine ⟨rfl, (by show (0 : Nat) ∈ tlvTypes; decide), ?_, ?_, ?_⟩
+    · rw [hov]; have := wf.2.2.2.2; simpa [C08.Spec.fsRequest, C08.Spec.tlv] using this
+    · rw [hov]; exact hv
+    · rw [hov]; exact hp
+
+/-- the decoder fails, for any octet string whatever, only with `ValueError`,
+    `UnsupportedCfdpVersion` or `InvalidCrc`; its option loop terminates (well-founded recursion) -/
+theorem C06_metadata_documented (d : Bytes) : Documented (Metadata.unpack d) := Metadata.unpack_documented d
+
+/-- what acceptance means: the buffer holds the whole declared PDU, the CRC-16 over exactly the
+    declared PDU is zero when the flag is set, the decoded header is the declared one, and the
+    result depends on the declared PDU only (trailing octets are neither read nor required) -/
+theorem C06_metadata_accept_sound (d : Bytes) (k : Metadata) (h : Metadata.unpack d = .ok k) (rest : Bytes) :
+    k.packetLen ≤ d.length ∧ (k.fd.header.conf.crcFlag = 1 → Crc.crc16 (d.take k.packetLen) = 0) ∧
+    Metadata.unpack (d.take k.packetLen ++ rest) = .ok k := by
+  obtain ⟨p, _, _, h3, h4, _⟩ := Metadata.unpack_inv d k h
+  exact ⟨h3, h4, Metadata.unpack_take d k h rest⟩
+
+/-- **every strict prefix of a packed PDU is refused with `ValueError`** -/
+theorem C06_metadata_truncated (x : Metadata) (wf : WFMd x) (k : Nat) (hk : k < (Spec.metadata x).length) :
+    Metadata.unpack ((Spec.metadata x).take k) = .error .value := by
+  rw [Metadata.unpack_eq]
+  exact pdu_truncated _ x.fd _ _ _ (by rw [mdParams_length x]; exact wf.2.2.2.2.2) k hk
+
+-- non-vacuity: closure requested, CRC-32, 64-bit size, a non-ASCII source name, two options, CRC
+private def exMd : Metadata :=
+  ⟨⟨⟨0, 0, 25, ⟨⟨1, 7⟩, ⟨1, 8⟩, ⟨1, 9⟩, 0, 1, 1, 0, 0⟩⟩, 7⟩, true, 3, 0x0102030405060708,
+    ⟨[0xC3, 0xA4, 0x2E]⟩, ⟨[0x62]⟩, some [.msgToUser ⟨⟨2, [0xAA]⟩⟩, .generic ⟨5, [1, 2]⟩]⟩
+example : WFMd exMd := by decide
+example : Metadata.new ⟨⟨1, 7⟩, ⟨1, 8⟩, ⟨1, 9⟩, 0, 1, 1, 1, 0⟩ true 3 0x0102030405060708 (some [0xC3, 0xA4, 0x2E])
+    (some [0x62]) (some [.msgToUser ⟨⟨2, [0xAA]⟩⟩, .generic ⟨5, [1, 2]⟩]) = .ok exMd := by rfl
+example : C05.Spec.octets exMd.fd.header ++ [u8 exMd.fd.code] ++ Spec.mdParams exMd
+    = [0x23, 0, 25, 0x00, 7, 9, 8, 7, 0x43, 1, 2, 3, 4, 5, 6, 7, 8, 3, 0xC3, 0xA4, 0x2E, 1, 0x62,
+       2, 1, 0xAA, 5, 2, 1, 2] := by decide
+example : (normMd exMd).options = some [.generic ⟨2, [0xAA]⟩, .generic ⟨5, [1, 2]⟩] := by decide
+example : WFMd ⟨⟨⟨0, 0, 8, ⟨⟨1, 0⟩, ⟨1, 0⟩, ⟨1, 0⟩, 0, 0, 0, 0, 0⟩⟩, 7⟩, false, 0, 4294967295, ⟨[]⟩, ⟨[]⟩, some []⟩ := by
+  decide
+example : (normMd ⟨⟨⟨0, 0, 8, ⟨⟨1, 0⟩, ⟨1, 0⟩, ⟨1, 0⟩, 0, 0, 0, 0, 0⟩⟩, 7⟩, false, 0, 5, ⟨[]⟩, ⟨[]⟩, some []⟩).options = none := by
+  decide
+
 end SpVerif.Props.C06Var
